@@ -126,6 +126,8 @@ class Registry:
 
     # ---- hooks (default: no special treatment) -----------------------------------------------------------
     def global_value(self, ex, st, name):
+        if name.startswith("ast.") and name not in self.globals:
+            return V("ref", clsref(name), "class")  # node classes of the ast module are interned class tags
         g = self.globals.get(name)
         if callable(g):
             return g(ex, st)
@@ -150,6 +152,15 @@ class Registry:
         return None
 
     def eq_hook(self, ex, st, a, b):
+        return None
+
+    def item_hook(self, ex, st, o, k):
+        return None
+
+    def compare_hook(self, ex, st, op, a, b):
+        return None
+
+    def unop_hook(self, ex, st, node, v):
         return None
 
     def contains_hook(self, ex, st, container, item):
